@@ -91,6 +91,15 @@ func selfTest(ctx *core.Ctx) error {
 	}
 	ctx.Logf("self-test (ii): locateObjects with `used = true` hoisted before the switch loses the object after a marker-like body line in the model")
 
+	res, err = ctx.TLC(core.TLCOpts{Dir: "file", Module: "MC_SeqScan", Cfg: "MC_SeqScan_sharedseen.cfg", Workers: 6, Mode: "negative-control"})
+	if err != nil {
+		return err
+	}
+	if res.Invariant != "PropertyHolds" {
+		return core.Infra("self-test: the model of checkObjects with one makeSafeGetInt for the whole scan should violate PropertyHolds, got %q", res.Invariant)
+	}
+	ctx.Logf("self-test (ii): a makeSafeGetInt shared by the whole scan cuts a complete stream with a resolvable /Length at the endstream line of its body in the model")
+
 	// (iii) table and ground truth
 	cases, rules, err := loadTable(ctx)
 	if err != nil {
